@@ -376,7 +376,7 @@ func c05RegisterRw(c *core.Ctx) {
 	z := &rwGen{g: &engGen{allowRTL: true, perPat: 8, maxLen: 10, biasRewrite: true}}
 	core.RunLeg(c, core.Leg[czCase]{
 		Name: "Rw", Kind: "correspondence(rewrite decisions)+certifier",
-		Rule: "half directed patterns (alternations whose branches share text / set / loop prefixes, in the contexts the rewrites distinguish), half patterns as leg R",
+		Rule: "half directed patterns (alternations of two to five branches that share a text prefix, a set / fixed-loop / variable-loop / atomic-loop prefix, or nothing, over a tiny alphabet so that merging, coalescing and re-factoring happen; bare, in a concatenation, under a capture, in an atomic group, in lookarounds of both directions, under a loop, in a conditional; every option set incl. RightToLeft and IgnoreCase), half patterns as leg R. Each pattern is parsed with the rewrites off and on and both trees are exported as the n-ary mirror type (gen.RNodeFromGoTree). Checked: (1) Lean's denotation toPat of both exports is what gen.FromGoTree prints; (2) the bump-along marker of the rewritten tree is where Lean's placeBump puts it (Props.C05.bump_marker_sound); (3) Lean's model of the gated rewrites (Model/RewriteDecisions.lean rewriteTop, every case enabled, both readings of an alternation directly under an Atomic node) applied to the UN-rewritten tree, validated against the engine's rewritten tree by the proved certifier cert, which accepts exactly the auto-atomic / ending-backtracking differences and demands equality elsewhere: 'corresponds'; when the proved variant of the model (no duplicate-collapsing cases) computes the same tree the pattern is 'certified' (Props.C05.rewrites_certified: same find from every start). A pattern that does not correspond is searched (its directed inputs, 1500 random strings mostly over its own characters, every start offset, naive scan of both compilations): a differing input is an impl-violation; none found: correspondence-break for directed patterns, residue bucket for general ones (nested alternations are flattened in the un-rewritten tree, which then does not determine the engine's result). non-trivial = the two trees differ",
 		N:    c.N(2000, 60000), Corpus: rwCorpus, Gen: z.next, Check: rwCheck, Batch: 500,
 	})
 }
